@@ -49,11 +49,20 @@ def build_and_run(driver, defines, copy, work, tag, timeout=120):
     return r.returncode, info
 
 
+STATIC_PROBES = {'config': 'config_probe.cpp', 'c18.layout': 'layout_probe.cpp'}
+
+
 def search(prop, violations, work):
+    # static obligations are evaluated on the real header by the real compilers: the probe's line *is* the failing input
+    for v in violations:
+        if v.get('unit') in STATIC_PROBES and v.get('description'):
+            probe = STATIC_PROBES[v['unit']]
+            return True, {'driver': 'static/' + probe, 'static_probe': True, 'defines': [], 'copy': 'include', 'unit': v['unit'], 'obligation': v['obligation'],
+                          'output': v['description'], 'cmd': 'g++ -std=c++11 -I %s/include -DFFSM2_HEADER=<ffsm2/machine.hpp> %s/static/%s && ./a.out' % (REPO, HERE, probe)}
     tried = {}      # (driver, defines, copy) -> outcome: every driver configuration is built and run once per check
     for v in violations:
         fam = family(v['unit'])
-        if prop in ('C15', 'C16') and re.search(r'^(structure|control)\.', v['unit']):
+        if prop in ('C15', 'C16') and re.search(r'^(structure|control|sparse|plans\.(Control|R_)\.|wrappers\.)', v['unit']):
             fam = fam_inject_log
         if prop == 'C12' and re.search(r'^c13\.(write|read|buffer)', v['unit']):
             fam = fam_serial_then_stream
@@ -93,6 +102,16 @@ def rerun(doc):
     import tempfile, shutil
     work = tempfile.mkdtemp(prefix='ffsm2replay_')
     try:
+        if sc.get('static_probe'):
+            exe = os.path.join(work, 'probe')
+            p = subprocess.run(['g++', '-std=c++11', '-Wno-invalid-offsetof', '-I', os.path.join(REPO, 'include'), '-DFFSM2_HEADER=<ffsm2/machine.hpp>', os.path.join(HERE, sc['driver']), '-o', exe],
+                               stdout=subprocess.PIPE, stderr=subprocess.PIPE)
+            if p.returncode != 0:
+                print(p.stderr.decode()[-800:]); return 2
+            r = subprocess.run([exe], stdout=subprocess.PIPE)
+            bad = [l for l in r.stdout.decode().splitlines() if l.rstrip().endswith('ok=0')]
+            print('\n'.join(bad) or 'every static fact holds on the current tree')
+            return 1 if bad else 0
         rc, info = build_and_run(os.path.basename(sc['driver']), sc['defines'], sc.get('copy', 'include'), work, 'rerun')
         print(info.get('output') or info)
         if rc is not None and 0 < rc < 126:
@@ -168,10 +187,10 @@ def fam_serial_then_stream(v):
 
 
 def fam_inject_log(v):
-    return 'inject_log_model.cpp', [[], ['PEER', 'VERBOSE'], ['VERBOSE']]
+    return 'inject_log_model.cpp', [[], ['PEER', 'VERBOSE'], ['VERBOSE'], ['SPARSE_HEAD']]
 
 
-FAMILIES = [(r'^c17\.', fam_memory), (r'^serial\.', fam_serial), (r'^structure\.(S_inj|S_empty)\.', fam_inject_log), (r'^plans\.', fam_planstep), (r'^c10\.', fam_plan), (r'^(root|structure|control)\.', fam_machine), (r'^c20\.bitarray\.', fam_bitarray), (r'^c13\.', fam_bitstream), (r'^c20\.(dynamic|static)\.', fam_dynarray)]
+FAMILIES = [(r'^c17\.', fam_memory), (r'^serial\.', fam_serial), (r'^structure\.(S_inj|S_empty)\.', fam_inject_log), (r'^plans\.', fam_planstep), (r'^c10\.', fam_plan), (r'^(root|structure|control|wrappers|sparse)\.', fam_machine), (r'^c20\.bitarray\.', fam_bitarray), (r'^c13\.', fam_bitstream), (r'^c20\.(dynamic|static)\.', fam_dynarray)]
 
 
 def family(unit):
